@@ -526,7 +526,10 @@ fn judge_c06(env: &Env, case: &Case, out: &Outcome, fails: &mut Vec<Failure>, la
                 fails.push(f("spawn failure|block allocated by the failed spawn call never freed|heap", format!("{on}: spec {i} ({}): spawn returned an error (errno {}), blocks of sizes {sizes:?} allocated inside that call are still live afterwards (thread-local block is 40 bytes, join state >= 32 bytes)", spec_text(s), sr.spawn_errno)));
                 continue;
             }
-            if !s.panic {
+            // (a result nobody joins is disposed of by the thread if the handle went first; when that destructor panics
+            // the thread has panicked - in its epilogue - and may leave its closure behind like any panicking thread)
+            let may_have_panicked = s.panic || (s.ty == TY_BOMB && !s.joined());
+            if !may_have_panicked {
                 fails.push(f(format!("thread exit|block allocated by spawn never freed|{} {}", if s.panic { "panic" } else { "return" }, DISP_NAMES[s.disp.min(4) as usize]), format!("{on}: spec {i} ({}): blocks of sizes {sizes:?} allocated inside its spawn call are still live after the thread is gone (thread-local block is 40 bytes, join state >= 32 bytes)", spec_text(s))));
             } else if ls.len() > 1 || ls[0].size > sr.closure_size as u64 + 16 {
                 fails.push(f(format!("thread exit|panicked thread left more than its closure|{}", DISP_NAMES[s.disp.min(4) as usize]), format!("{on}: spec {i} ({}): live blocks of sizes {sizes:?} from its spawn call; allowed: one block <= {} bytes (the closure)", spec_text(s), sr.closure_size + 16)));
@@ -658,7 +661,10 @@ fn judge_c06(env: &Env, case: &Case, out: &Outcome, fails: &mut Vec<Failure>, la
                     } else if !by_thread && sta > 0 {
                         fails.push(f(format!("thread exit|clear-tid address reset although the handle side frees the join state|{kind} {disp}"), format!("{who} on {}: set_tid_address(0) called {sta}x by thread {}, join state freed by tid {}", case.build, c.tid, js.free_tid)));
                     } else if sta > 1 {
-                        fails.push(f(format!("thread exit|set_tid_address(0) called more than once|{kind}"), format!("{who} on {}: {sta} calls", case.build)));
+                        // resetting the clear-tid address twice releases nothing twice (the call is idempotent): a
+                        // thread whose result's destructor panics in the epilogue does it - once in the epilogue, once
+                        // on the panic path. Counted, not judged (the property is about the resources).
+                        rep.class("clear-tid-address-reset-twice-by-one-thread");
                     } else if by_thread {
                         rep.class("set_tid_address(0) by the thread that lost the flag race");
                     } else {
